@@ -52,6 +52,7 @@ impl State {
                 history.metrics()
             )
         };
+        #[cfg(feature = "verif-hooks")] crate::verif::point("http-payload:read-done");
         let (snapshot, metrics, created) = match (snapshot, metrics, created) {
             (Some(snapshot), Some(metrics), Some(created)) => {
                 (snapshot, metrics, created)
